@@ -146,6 +146,7 @@ package diff
 //@ loop 2 invariant vs_globalinv_codeTable()
 
 //@ func CheckToFromPrimitiveType
+//@ requires vs_nonNilItem(type1) && vs_nonNilItem(type2)
 //@ ensures vs_noNone(diffs) ==> vs_noNone(result)
 //@ props C12 C13 C14
 //@ modifies nothing
@@ -154,6 +155,7 @@ package diff
 //@ ensures isPrimitive(type1) != isPrimitive(type2) ==> len(result) == len(diffs)+1 && result[len(diffs)].Change == ChangedType
 
 //@ func CheckRefChange
+//@ requires vs_nonNilItem(type1) && vs_nonNilItem(type2)
 //@ ensures vs_noNone(diffs) ==> vs_noNone(diffReturn)
 //@ props C12 C13 C14
 //@ modifies nothing
@@ -227,7 +229,7 @@ package diff
 //@ func (*SpecAnalyser).compareSimpleSchema
 //@ props C12 C13 C14
 //@ modifies &sd.Diffs
-//@ requires sd != nil && schema1 != nil && schema2 != nil
+//@ requires sd != nil && schema1 != nil && schema2 != nil && vs_validSimple(schema1) && vs_validSimple(schema2)
 //@ ensures old(len(sd.Diffs)) <= len(sd.Diffs)
 //@ ensures vs_all(func(i int) bool { return 0 <= i && i < old(len(sd.Diffs)) ==> sd.Diffs[i] == old(sd.Diffs[i]) })
 //@ ensures vs_all(func(i int) bool { return old(len(sd.Diffs)) <= i && i < len(sd.Diffs) ==> sd.Diffs[i].DifferenceLocation == location && sd.Diffs[i].Compatibility == getCompatibilityForChange(sd.Diffs[i].Code, vs_context(location)) })
@@ -246,7 +248,7 @@ package diff
 //@ func (*SpecAnalyser).compareParams
 //@ props C12 C13 C14
 //@ modifies &sd.Diffs, sd.schemasCompared, sd.ReferencedDefinitions
-//@ requires sd != nil
+//@ requires sd != nil && vs_validSimple(&param1.SimpleSchema) && vs_validSimple(&param2.SimpleSchema)
 //@ ensures old(len(sd.Diffs)) <= len(sd.Diffs)
 //@ ensures vs_all(func(i int) bool { return 0 <= i && i < old(len(sd.Diffs)) ==> sd.Diffs[i] == old(sd.Diffs[i]) })
 //@ ensures vs_noBody(param1, param2) && !param1.Required && param2.Required ==> vs_hasBreaking(sd.Diffs, old(len(sd.Diffs)))
